@@ -165,16 +165,80 @@ var svgAttrs = []string{"d", "points", "transform", "viewBox", "preserveAspectRa
 
 var svgFrags = []string{"M", "m", "L", "l", "H", "h", "V", "v", "C", "c", "S", "s", "Q", "q", "T", "t", "A", "a", "Z", "z", "0", "1", "-1", "1.5", ".5", "-.5", "1e3", "1e-3", "1e40", "1-2", "1.5.5", "011", "1,2", ",", " ", "  ", "\n", "1 1 0 0 1 5 5", "1 1 0 1 0 5 5", "10 10", "rotate(30)", "rotate(30 1)", "rotate(30 1 2)", "scale(2)", "scale()", "translate(1,2)", "translate(1 2 3)", "skewX(10)", "skewY(", "matrix(1 0 0 1 0 0)", "matrix(1 0)", "bogus(1)", "(", ")", "xMidYMid", "xMinYMax slice", "none", "meet", "slice", "bogus", "0 0 10 10", "0 0 0 0", "0 0 -1 -1", "0 0 10", "10px", "10%", "1em", "1ex", "-10", "auto", "red", "#f00", "url(#g)", "url(#nope)", "url(", "url(#g) red", "currentColor", "rgb(1,2,3)", "rgb(", "5 2", "5,2,1", "0 0", "-1 2", "none", "fill: red; stroke: blue", "fill:", ":", ";", "fill: red !important", "NaN", "Infinity", "inf", "e", "+", "-", ".", "1e", "1e+", "٣", "é", "\x00", "#u", "#", "mem://doc/pic.svg#x", "data:image/svg+xml,<svg/>"}
 
+var svgGrammarAttrs = []string{"d", "d", "d", "d", "points", "points", "transform", "transform", "gradientTransform", "patternTransform", "viewBox", "preserveAspectRatio", "stroke-dasharray", "rotate", "dx", "x", "orient"}
+
+var svgNums = []string{"0", "1", "-1", "5", "10", "2.5", ".5", "-.5", "1e2", "1e-2", "-0", "+3", "100", "1e40", "0.0001"}
+
+// svgGrammarValue writes a value in the attribute's own grammar (path data, point lists, transform
+// lists, viewBox, ...) in which every group has a random number of numbers: complete sets, one too
+// few, one too many, none.
+func svgGrammarValue(r *rand.Rand, attr string) string {
+	nums := func(k int) string {
+		var p []string
+		for i := 0; i < k; i++ {
+			p = append(p, gen.Pick(r, svgNums))
+		}
+		return strings.Join(p, gen.Pick(r, []string{" ", ",", " , ", " "}))
+	}
+	var sb strings.Builder
+	switch attr {
+	case "d":
+		need := map[byte]int{'M': 2, 'L': 2, 'H': 1, 'V': 1, 'C': 6, 'S': 4, 'Q': 4, 'T': 2, 'A': 7, 'Z': 0}
+		n := 1 + r.Intn(6)
+		for i := 0; i < n; i++ {
+			c := "MLHVCSQTAZ"[r.Intn(10)]
+			k := need[c]
+			switch r.Intn(6) {
+			case 0:
+				k += 1 + r.Intn(3) // trailing incomplete set
+			case 1:
+				k = k*2 + r.Intn(2) // repeated sets, maybe one number more
+			case 2:
+				if k > 0 {
+					k -= 1 + r.Intn(k)
+				}
+			}
+			if r.Intn(2) == 0 {
+				c += 'a' - 'A'
+			}
+			if i == 0 && r.Intn(4) != 0 {
+				c = "Mm"[r.Intn(2)]
+				if k < 2 && r.Intn(3) != 0 {
+					k = 2
+				}
+			}
+			sb.WriteByte(c)
+			sb.WriteString(gen.Pick(r, []string{"", " "}))
+			sb.WriteString(nums(k))
+			sb.WriteString(gen.Pick(r, []string{"", " ", ""}))
+		}
+	case "points":
+		sb.WriteString(nums(r.Intn(8)))
+	case "transform", "gradientTransform", "patternTransform":
+		n := 1 + r.Intn(3)
+		for i := 0; i < n; i++ {
+			sb.WriteString(gen.Pick(r, []string{"translate", "scale", "rotate", "skewX", "skewY", "matrix", "skew", "bogus"}) + gen.Pick(r, []string{"(", " (", "("}) + nums(r.Intn(8)) + gen.Pick(r, []string{")", ")", ") ", "),", ""}))
+		}
+	case "viewBox":
+		sb.WriteString(nums(r.Intn(6)))
+	case "preserveAspectRatio":
+		sb.WriteString(gen.Pick(r, []string{"", "defer ", "x"}) + gen.Pick(r, []string{"none", "xMinYMin", "xMidYMid", "xMaxYMax", "xMidYMi", "xMid", "XMIDYMID", ""}) + gen.Pick(r, []string{"", " meet", " slice", " bogus", " ", " meet slice"}))
+	default:
+		sb.WriteString(nums(r.Intn(5)) + gen.Pick(r, []string{"", "%", "px", "em", " auto", "auto"}))
+	}
+	return sb.String()
+}
+
 var htmlAttrs = []string{"colspan", "rowspan", "span", "start", "value", "size", "width", "height", "align", "valign", "border", "cellspacing", "cellpadding", "bgcolor", "color", "face", "rows", "cols", "type", "hspace", "vspace", "dir", "lang", "href", "src", "style", "id", "class", "max", "min", "reversed", "background", "bordercolor", "text", "link", "nowrap", "hidden", "rel", "media", "content", "http-equiv", "name"}
 
-var attrFrags = []string{"0", "1", "2", "7", "-1", "1000", "65534", "65535", "65536", "99999999999999999999", "1.5", "1e3", "50%", "*", "2*", "x", "", " ", " 2 ", "+2", "-0", "0x10", "#f00", "#ff", "red", "bogus", "left", "center", "justify", "char", "a", "A", "i", "I", "1", "disc", "circle", "rtl", "auto", "en", "fr", "zz-ZZ", "#a1", "#", "%", "%zz", "%00", "http://[::1", "data:,x", "data:image/png;base64,@@@", "data:;base64,", "data:text/plain;charset=bogus,%ff", "mem://doc/pic.svg", "javascript:x", "//x", "../..", "\\", "color: red", "width: 1e9px", "a b c", "stylesheet", "attachment", "print", "screen and (", "refresh", "\x00", "\u00a0", "٣"}
+var attrFrags = []string{"0", "1", "2", "7", "-1", "1000", "65534", "65535", "65536", "99999999999999999999", "1.5", "1e3", "50%", "*", "2*", "x", "", " ", " 2 ", "+2", "-0", "0x10", "#f00", "#ff", "red", "bogus", "left", "center", "justify", "char", "a", "A", "i", "I", "1", "disc", "circle", "rtl", "auto", "en", "fr", "zz-ZZ", "#a1", "#", "%", "%zz", "%00", "http://[::1", "data:,x", "data:image/png;base64,@@@", "data:;base64,", "data:text/plain;charset=bogus,%ff", "mem://doc/pic.svg", "javascript:x", "//x", "../..", "\\", "color: red", "width: 1e9px", "a b c", "stylesheet", "attachment", "print", "screen and (", "refresh", "\x00", "\u00a0", "٣", "\t", "\n", "  ", "\u3000", " \u00a0 ", "+", "-", "+ 2", "- 2", ".", ".5", "5.", "e", "1e", ",", ";", "1,2", "1 2", "٣٣", "１", "0 ", " 0", "00", "-00", "2147483647", "2147483648", "-2147483649", "4294967296", "1e400", "NaN", "inf", "#", "#12345", "#1234567", "rgb(", "url(", "'", "<"}
 
 func counts(tier string) (css, sel, decl, sheet, svg, url, attr, counter, exh int) {
 	exh = gen.CountStrings(len(gen.Alphabet14), 3) // exhaustive short css strings, length <= 3 (quick)
 	if tier == "thorough" {
-		return 400000, 300000, 2000000, 300000, 60000, 200000, 40000, 100000, gen.CountStrings(len(gen.Alphabet14), 5)
+		return 400000, 300000, 2000000, 400000, 60000, 200000, 60000, 100000, gen.CountStrings(len(gen.Alphabet14), 5)
 	}
-	return 20000, 20000, 80000, 12000, 2500, 10000, 1500, 5000, exh
+	return 20000, 20000, 80000, 16000, 6000, 10000, 6500, 5000, exh
 }
 
 func total(tier string) int {
@@ -184,9 +248,9 @@ func total(tier string) int {
 
 func init() {
 	fw.Register(&fw.Prop{
-		ID: "C07",
+		ID:   "C07",
 		Rule: "cases per entry-point family: css text (Tokenize, 6 rule/declaration parsers, ParseNth, ParseColorString, Serialize; exhaustive strings over a 14-symbol alphabet up to length 3 (quick) / 5 (thorough) + hostile soup), selector text (ParseGroup, String, Match, Specificity), declarations (every known longhand/shorthand/prefixed/unknown property name x generated value token sequences through PreprocessDeclarations, and through a whole style sheet + cascade), descriptor blocks (@font-face, @counter-style + RenderValue over [-50,50], @page, @media, @import), SVG attribute values (inline <svg> through the full renderer), URL handling (join, unquote, data: URIs), HTML attribute values (box building + layout). Non-trivial: the parser under test accepted the input as well-formed at least partially (produced a non-error result); distinct = distinct (kind,name,text).",
-		N: total,
+		N:    total,
 		Gen: func(r *rand.Rand, i int, tier string) any {
 			css, sel, decl, sheet, svg, url, attr, counter, exh := counts(tier)
 			_ = counter
@@ -222,11 +286,20 @@ func init() {
 				for k := 0; k < n; k++ {
 					parts = append(parts, gen.Pick(r, svgFrags))
 				}
+				if r.Intn(2) == 0 {
+					// grammar-directed: the attribute's own value grammar, with wrong counts of numbers
+					name := gen.Pick(r, svgGrammarAttrs)
+					return input{Kind: "svg", Name: name, Text: svgGrammarValue(r, name)}
+				}
 				return input{Kind: "svg", Name: gen.Pick(r, svgAttrs), Text: strings.Join(parts, gen.Pick(r, []string{" ", "", ","}))}
 			case i < css+sel+decl+sheet+svg+url:
 				return input{Kind: "url", Name: gen.Pick(r, attrFrags), Text: genURL(r)}
 			case i < css+sel+decl+sheet+svg+url+attr:
-				return input{Kind: "attr", Name: gen.Pick(r, htmlAttrs), Text: gen.Pick(r, attrFrags) + gen.Pick(r, []string{"", "", gen.Pick(r, attrFrags)})}
+				// every attribute name with every single fragment first (exhaustive), then random pairs
+				if k := i - (css + sel + decl + sheet + svg + url); k < len(htmlAttrs)*len(attrFrags) {
+					return input{Kind: "attr", Name: htmlAttrs[k%len(htmlAttrs)], Text: attrFrags[k/len(htmlAttrs)]}
+				}
+				return input{Kind: "attr", Name: gen.Pick(r, htmlAttrs), Text: gen.Pick(r, attrFrags) + gen.Pick(r, attrFrags)}
 			default:
 				return input{Kind: "counter", Text: genCounterStyle(r)}
 			}
@@ -239,7 +312,7 @@ func init() {
 			return 30000
 		},
 		CounterFloors: func(tier string) map[string]int64 {
-			return map[string]int64{"kind_css": 10000, "kind_selector": 10000, "kind_decl": 50000, "kind_sheet": 5000, "kind_svg": 1000, "kind_url": 5000, "kind_attr": 500, "kind_counter": 2000, "decl_accepted": 2000, "selectors_parsed": 2000}
+			return map[string]int64{"kind_css": 10000, "kind_selector": 10000, "kind_decl": 50000, "kind_sheet": 5000, "kind_svg": 4000, "kind_url": 5000, "kind_attr": 5000, "kind_counter": 2000, "decl_accepted": 2000, "selectors_parsed": 2000}
 		},
 		Exhaustive:  func(string) bool { return false },
 		Assumptions: []string{"only the listed entry points and generated inputs are exercised; a clean run is not a proof of crash freedom", "CPU budget 120 s per call sequence as the bounded restatement of 'terminates'"},
@@ -258,8 +331,29 @@ func genSelector(r *rand.Rand) string {
 	return sb.String()
 }
 
+// prelude fragments of the at-rules webrender interprets itself (page selectors, media queries, imports)
+var pageSelFrags = []string{":first", ":left", ":right", ":blank", ":FIRST", ":nth(1)", ":nth(2n+1)", ":nth(odd)", ":nth(of a)", ":nth( of a)", ":nth(2 of a)", ":nth(2n of a)", ":nth(n of)", ":nth(of)", ":nth(2 of)", ":nth(of a b)", ":nth(2n + of a)", ":nth()", ":nth( )", ":nth(", ":nth(a)", ":nth(2 a)", ":nth(2 of 3)", ":nth(-n+3)", ":nth(+ 2)", ":nth(/**/of/**/a)", "name", "a", "a:first", "a :first", "a:first:left", ":first:first", ":bogus", ":", "::", ",", ", ", " ", "", "a,", ",a", "a b", "1", "-", "*", "auto", "\\31 ", "/**/", "(", ")", "{", "!"}
+var mediaFrags = []string{"print", "screen", "all", "PRINT", "not", "only", "and", "not print", "only screen", "print and (min-width: 1px)", "(", ")", "(min-width", "(min-width:", "(min-width: 1px)", "()", "( )", ",", ", ", " ", "", "and and", "not not", "not,", "print,", ",print", "1", "-", "\"a\"", "url(x)", "layer", "layer(a)", "supports(display: grid)", "supports(", "/**/", "!", "@", ";"}
+var importFrags = []string{"url(mem://doc/extra.css)", "\"mem://doc/extra.css\"", "'extra.css'", "url(\"extra.css\")", "url()", "url( )", "\"\"", "url(", "\"", "extra.css", "1", "", " ", "/**/", "/* c */", "print", "screen", "not", ",", "(", ")", "layer", "supports(", ";", "{}", "url(data:text/css,p%7Bcolor:red%7D)", "url(data:,)", "url(#)", "url(mem://doc/missing.css)"}
+
+func fragSeq(r *rand.Rand, pool []string, max int) string {
+	n := r.Intn(max + 1)
+	var sb strings.Builder
+	for i := 0; i < n; i++ {
+		sb.WriteString(gen.Pick(r, pool))
+		sb.WriteString(gen.Pick(r, []string{"", "", " ", " ", "/**/"}))
+	}
+	return sb.String()
+}
+
 func genSheet(r *rand.Rand) string {
-	switch r.Intn(8) {
+	switch r.Intn(11) {
+	case 8:
+		return gen.Pick(r, []string{"", "@charset \"utf-8\";", "/* c */", "p{}", "@media print{}"}) + "@import" + gen.Pick(r, []string{" ", "", "/**/"}) + fragSeq(r, importFrags, 3) + gen.Pick(r, []string{";", ";", "", "{}", "; p { color: red }"})
+	case 9:
+		return "@page" + gen.Pick(r, []string{" ", "", "/**/"}) + fragSeq(r, pageSelFrags, 3) + " { margin: 1px; " + gen.Pick(r, []string{"", "@top-left { content: 'x' }", "size: " + valueSeq(r)}) + " }"
+	case 10:
+		return "@media" + gen.Pick(r, []string{" ", "", "/**/"}) + fragSeq(r, mediaFrags, 4) + gen.Pick(r, []string{" { p { color: red } }", "{}", ";", " { @media " + fragSeq(r, mediaFrags, 2) + " { p { x: y } } }"})
 	case 0:
 		return "@media " + gen.Soup(r, 4) + " { p { color: red } }"
 	case 1:
@@ -451,7 +545,7 @@ func check(raw json.RawMessage) fw.Result {
 		}
 		// through the whole pipeline with the cascade (no drawing)
 		step("layout with sheet", func() {
-			_, err := wr.Render(wr.Opts{HTML: `<html><head><style>` + strings.ReplaceAll(in.Text, "</", "<\\/") + `</style></head><body><p class="c1" id="a1">a <span>b</span></p><ol><li>x</li></ol></body></html>`, NoWrite: true})
+			_, err := wr.Render(wr.Opts{HTML: `<html><head><style>` + strings.ReplaceAll(in.Text, "</", "<\\/") + `</style></head><body><p class="c1" id="a1">a <span>b</span></p><ol><li>x</li></ol></body></html>`, NoWrite: true, Files: map[string]string{"extra.css": "@import 'extra.css'; p { color: blue }"}})
 			_ = err
 		})
 	case "counter":
